@@ -1,7 +1,7 @@
 (** Correspondence glue for C12: run the position kernels of the model on what the harness
     recorded and compare with what the implementation produced.  No kernel logic here. *)
 From Sq Require Import Base.Corr.
-From Sq Require Export Apply.Model TreePos.Model.
+From Sq Require Export Apply.Model TreePos.Model TreePos.TFile.
 
 Definition marker_eqb_full (a b : marker) : bool :=
   (m_ss a =? m_ss b) && (m_se a =? m_se b) && (m_ts a =? m_ts b) && (m_te a =? m_te b)
@@ -68,3 +68,23 @@ Definition model_metapos (a : args_metapos) : option (list (N * marker)) :=
   end.
 Definition check_metapos (a : args_metapos) (exp : option (list (N * marker))) : bool :=
   opt_eqb (list_eqb (pair_eqb N.eqb marker_eqb_full)) (model_metapos a) exp.
+
+(** group tflinepos: (source text, templated text, char_pos, source flag) ->
+    [TemplatedFile::new(..).get_line_pos_of_char_pos(char_pos, source)] *)
+Definition args_tflinepos : Type := (str * str * N * bool)%type.
+Definition case_t_tflinepos : Type := (N * args_tflinepos * (N * N))%type.
+Definition model_tflinepos (a : args_tflinepos) : N * N :=
+  let '(src, tpl, p, flag) := a in tf_line_pos (tf_new src tpl) p flag.
+Definition check_tflinepos (a : args_tflinepos) (exp : N * N) : bool := nn_eqb (model_tflinepos a) exp.
+
+(** group tfmarker: (source text, templated text, (ss, se, ts, te)) ->
+    [PositionMarker::new(ss..se, ts..te, file, None, None)] with its source / templated positions *)
+Definition args_tfmarker : Type := (str * str * (N * N * N * N))%type.
+Definition case_t_tfmarker : Type := (N * args_tfmarker * (marker * (N * N) * (N * N)))%type.
+Definition model_tfmarker (a : args_tfmarker) : marker * (N * N) * (N * N) :=
+  let '(src, tpl, (ss, se, ts, te)) := a in
+  let tf := tf_new src tpl in
+  let m := marker_new tf ss se ts te in (m, source_position tf m, templated_position tf m).
+Definition check_tfmarker (a : args_tfmarker) (exp : marker * (N * N) * (N * N)) : bool :=
+  let '(m, sp, tp) := model_tfmarker a in
+  marker_eqb_full m (fst (fst exp)) && nn_eqb sp (snd (fst exp)) && nn_eqb tp (snd exp).
